@@ -376,8 +376,12 @@ theorem mem_pyJoinChar (sep : Char) (parts : List Str) (ch : Char) (h : ch ∈ p
 
 theorem textItems_eq (text : Str) :
     textItems text = splitAt Gen.cs_d66b60d0.mem (text.filter (fun c => !Gen.cs_70d553c2.mem c)) := by
-  unfold textItems Gen.inl_config_Config__text_to_attributes_1 Gen.inl_config_Config__text_to_attributes_0
-  rw [sub_star_chr_nil, split_chr]
+  unfold textItems
+  -- robust against the equivalent spellings `\s*` / `\s+` / `\s` of the white-space deleter (`constructor` finds the spelling)
+  have hdel : DeletesClass Gen.cs_70d553c2 Gen.inl_config_Config__text_to_attributes_0 := by constructor
+  rw [hdel.sub_nil]
+  unfold Gen.inl_config_Config__text_to_attributes_1
+  rw [split_chr]
 
 theorem textItems_join (parts : List Str) (hne : parts ≠ []) (hp : ∀ w ∈ parts, ∀ ch ∈ w, sep0 ch = false) :
     textItems (pyJoin (S ",") parts) = parts := by
